@@ -279,18 +279,18 @@ def run(tier, seed):
         uses3 = [u for u in uses if len(u) == 3]
         uses = [u for u in uses if len(u) < 3] + rng.sample(uses3, 300)
     rulesets = []
-    for sk in skels:
+    for sk in core.mine(skels):
         p = realize(sk, [0])
         rulesets.append(([(p, template_for(p, 0))], uses))
     n_single = len(rulesets)
     # ---------------- two-rule sets (first match wins): sampled pairs of the same patterns
-    for _ in range(150 if tier == "quick" else 3000):
+    for _ in range(150 if tier == "quick" else core.share(3000)):
         a, b = rng.choice(skels), rng.choice(skels)
         pa, pb = realize(a, [0]), realize(b, [0])
         us = [u for u in uses if len(u) <= 2] + rng.sample(uses, 60)
         rulesets.append(([(pa, template_for(pa, 0, rng)), (pb, template_for(pb, 1, rng))], us))
     # ---------------- (b) random larger rule sets, uses derived from the patterns and mutated
-    for _ in range(1200 if tier == "quick" else 25000):
+    for _ in range(1200 if tier == "quick" else core.share(25000)):
         k = rng.randint(1, 5)
         rules = []
         for i in range(k):
@@ -330,7 +330,7 @@ def run(tier, seed):
             judge(ctx, rules, u, s, "eval")
     ctx.legs.append("eval")
     # ---------------- Transformer::transform on a sample
-    sample = rng.sample(rulesets, min(len(rulesets), 300 if tier == "quick" else 3000))
+    sample = rng.sample(rulesets, min(len(rulesets), 300 if tier == "quick" else core.share(3000)))
     ejobs = [{"id": i, "def": define_text(rules), "uses": ["(m %s)" % " ".join(show(x) for x in u) for u in us[:40]]} for i, (rules, us) in enumerate(sample)]
     erecs = core.run_driver("expand", ejobs, "dev" if tier == "quick" else "release", timeout=600, tag="c04x")
     for (rules, us), rec in zip(sample, erecs):
